@@ -128,6 +128,20 @@ pub fn samples(_seed: u64) -> Vec<Sample> {
         // object 9 is free (simple_doc fills the gap 9 with a free entry)
         v.push(Sample { name: "missing-object-one-level-below".into(), bytes: crate::mkpdf::simple_doc(&objs, 1, vec![]), password: vec![] });
     }
+    // an incremental update whose cross-reference stream is a new version of the previous one (same object number): the
+    // stream cache is keyed by object number, the two revisions must not be confused while the document is opened
+    {
+        use crate::mkpdf::{dict, name, rf, Obj, W};
+        let mut w = W::new(b"", "1.5");
+        w.free(0, 0, 65535);
+        for (n, o) in crate::mkpdf::skeleton(1) { w.obj(n, 0, &o); }
+        w.obj(4, 0, &dict(vec![("Rev", Obj::Int(1)), ("Kind", name("First"))]));
+        w.xref_stream(9, vec![(b"Root".to_vec(), rf(1))], 10, &[], &crate::mkpdf::flate_filter);
+        w.obj(4, 0, &dict(vec![("Rev", Obj::Int(2)), ("Kind", name("Second")), ("More", crate::mkpdf::ints(&[1, 2, 3, 4, 5, 6, 7, 8]))]));
+        w.obj(5, 0, &dict(vec![("Added", Obj::Bool(true))]));
+        w.xref_stream(9, vec![(b"Root".to_vec(), rf(1))], 10, &[], &crate::mkpdf::no_filter);
+        v.push(Sample { name: "xref-stream-number-reused".into(), bytes: w.buf, password: vec![] });
+    }
     // images whose filter chain splits into "normal" and "image" filters
     {
         use crate::mkpdf::{arr, name, rf, stream, Obj};
@@ -171,7 +185,16 @@ pub fn run(run: &Run) {
             run.eval();
             for cfg in [3u8, 1, 2, 0] {
                 let c = Counters { oh: Arc::new(AtomicU64::new(0)), om: Arc::new(AtomicU64::new(0)), sh: Arc::new(AtomicU64::new(0)), sm: Arc::new(AtomicU64::new(0)) };
-                let Ok(got) = run_config(s, cfg, seq, &c) else { run.inconclusive(format!("{}: load failed in config {}", s.name, cfg)); return };
+                let got = match run_config(s, cfg, seq, &c) {
+                    Ok(g) => g,
+                    // the same bytes opened without caches a moment ago: a cached configuration that cannot open them answers differently
+                    Err(e) if cfg != 0 => {
+                        run.violation(&format!("C12|cache={}|load|error-instead-of-value", ["none", "object", "stream", "both"][cfg as usize]), &format!("{}: opening with this cache configuration fails ({}) while the uncached document opens", s.name, e),
+                            json!({"file": s.name, "config": cfg, "error": e}));
+                        return;
+                    }
+                    Err(e) => { run.inconclusive(format!("{}: uncached load failed the second time: {}", s.name, e)); return }
+                };
                 if cfg == 3 && c.oh.load(Ordering::Relaxed) + c.sh.load(Ordering::Relaxed) > 0 { run.nontrivial(fnv(format!("{}{:?}", s.name, seq).as_bytes())); }
                 totals.oh.fetch_add(c.oh.load(Ordering::Relaxed), Ordering::Relaxed); totals.om.fetch_add(c.om.load(Ordering::Relaxed), Ordering::Relaxed);
                 totals.sh.fetch_add(c.sh.load(Ordering::Relaxed), Ordering::Relaxed); totals.sm.fetch_add(c.sm.load(Ordering::Relaxed), Ordering::Relaxed);
